@@ -7,6 +7,8 @@
    theorem holds for every `fenv`. *)
 From Coq Require Import ZArith Bool List String.
 Require Import X.Base.Num X.Base.Value X.Syn.Ast X.Sem.Prim X.Sem.Sem X.Opt.Optimizer X.Opt.OptProofs.
+Require Import X.Opt.OptRules X.gen.GenOpt X.Bridge.BrOpt.
+Require X.Parse.Parser.
 Import ListNotations.
 Open Scope Z_scope.
 
@@ -195,8 +197,10 @@ Theorem C02_in_range_expr_sound : forall fe cfg env cn a op x ar af f at_ t n1 n
 Proof. exact OptProofs.in_range_core. Qed.
 Print Assumptions C02_in_range_expr_sound.
 
+(* since the repair of const_range.go (80e2856: a descending range is recognised on the values, an
+   ascending one is materialised only when its Go-int size is in 1..10^6) for EVERY pair of bounds *)
 Theorem C02_const_range_sound : forall fe cfg env a a1 lo a2 hi ctx s,
-  akind a1 = RKNum KInt -> akind a2 = RKNum KInt -> - 2 ^ 63 <= iv hi - iv lo ->
+  akind a1 = RKNum KInt -> akind a2 = RKNum KInt ->
   rsim eq [] (eval fe cfg env ctx (fst (const_range_v (EBinary a BRange (EInt a1 lo) (EInt a2 hi)))) s)
              (eval fe cfg env ctx (EBinary a BRange (EInt a1 lo) (EInt a2 hi)) s).
 Proof. exact OptProofs.const_range_sound. Qed.
@@ -230,3 +234,84 @@ Theorem C02_constexpr_pure : forall fe cfg env cn e,
   (forall l, optimize fe env cn e = OFail l -> has_dz e = true \/ cx_fails fe env cn).
 Proof. exact OptProofs.C02_constexpr_pure. Qed.
 Print Assumptions C02_constexpr_pure.
+
+(* ------------------------------------------------------------------ the model optimizer is the source's rules *)
+(* gen/GenOpt.v is regenerated from /repo/optimizer/*.go on every run (translator/gen_opt.go): the
+   statements of each pass's Exit and of Optimize as terms of the DSL of Opt/OptRules.v, whose
+   interpreter runs them the way Go does (sequencing, goto, return, panics and the recover of
+   const_expr.go, Go int wrap-around).  Nothing of the current source is outside the DSL: *)
+Theorem C02_genopt_recognised : genopt_all_recognised = true.
+Proof. exact BrOpt.genopt_recognised. Qed.
+Print Assumptions C02_genopt_recognised.
+
+(* Running the regenerated statements of Optimize, every `Walk(node, &pass{})` being the post-order
+   walk with the regenerated Exit of that pass, gives the model's `optimize`: the same tree or the same
+   rejection.  Side condition (decidable): operators are canonical throughout the tree, i.e. no
+   `BUnknown "+"`, a second representation of a known spelling that the parser never builds
+   (C02_parser_operators_canonical). *)
+Theorem C02_model_optimizer_is_source_rules : forall fe env cnames e,
+  optimize_bridge_ok e = true ->
+  interp_optimize (gen_visitors GenOpt.passes fe env cnames) (has_names cnames) GenOpt.optimize_steps e
+  = Some (optimize fe env cnames e).
+Proof. exact BrOpt.model_optimizer_is_source_rules. Qed.
+Print Assumptions C02_model_optimizer_is_source_rules.
+
+Example C02_source_rules_side_condition_inhabited : optimize_bridge_ok x_expr = true.
+Proof. exact BrOpt.optimize_bridge_ok_inhabited. Qed.
+Example C02_source_rules_fire :
+  exists e', interp_optimize (gen_visitors GenOpt.passes w_fe x_env []) (has_names []) GenOpt.optimize_steps x_expr = Some (OOk e')
+             /\ e' <> x_expr.
+Proof. exact BrOpt.gen_optimize_rewrites. Qed.
+
+(* the driver alone: pass order, bounds 1000 / 100 (at most 1001 / 101 walks), `return x.err`,
+   `break` when nothing was applied, the ConstExprFns guard *)
+Theorem C02_optimize_steps_are_source : forall fe env cnames e,
+  interp_optimize (model_visitors fe env cnames) (has_names cnames) GenOpt.optimize_steps e = Some (optimize fe env cnames e).
+Proof. exact BrOpt.optimize_steps_bridge. Qed.
+Print Assumptions C02_optimize_steps_are_source.
+
+(* one node at a time: the regenerated Exit of each pass is the model's per-node visitor (same node,
+   same `applied` flag, same error location) *)
+Theorem C02_fold_is_source_rules : forall fe e, node_canonical e = true ->
+  interp_rules (f_pow fe) (p_body GenOpt.fold_pass) e = rw_of (fold_v (f_pow fe) e).
+Proof. exact (fun fe e => BrOpt.fold_rules_bridge (f_pow fe) e). Qed.
+Print Assumptions C02_fold_is_source_rules.
+
+Theorem C02_in_array_is_source_rules : forall fe e, node_canonical e = true ->
+  interp_rules (f_pow fe) (p_body GenOpt.in_array_pass) e = rw_of (in_array_v e).
+Proof. exact (fun fe e => BrOpt.in_array_rules_bridge (f_pow fe) e). Qed.
+Print Assumptions C02_in_array_is_source_rules.
+
+Theorem C02_in_range_is_source_rules : forall fe e, node_canonical e = true ->
+  interp_rules (f_pow fe) (p_body GenOpt.in_range_pass) e = rw_of (in_range_v e).
+Proof. exact (fun fe e => BrOpt.in_range_rules_bridge (f_pow fe) e). Qed.
+Print Assumptions C02_in_range_is_source_rules.
+
+Theorem C02_const_expr_is_source_rules : forall fe env cnames e,
+  interp_pass (f_pow fe) (is_const_fn cnames) (const_call fe env) GenOpt.const_expr_pass e
+  = rw_of (const_expr_v fe env cnames e).
+Proof. exact (fun fe env cnames e => BrOpt.const_expr_bridge (f_pow fe) fe env cnames e). Qed.
+Print Assumptions C02_const_expr_is_source_rules.
+
+(* const_range.go fills the slice with `min.Value + i` in Go int arithmetic; the model's range_list
+   does not wrap.  They agree for EVERY node since the repair 80e2856 (before it the statement was
+   false: 9223372036854775807..-9223372036854775808 had the wrapped size 2 and was folded to
+   [MaxInt, MinInt], the unoptimized program yielding []). *)
+Theorem C02_const_range_is_source_rules : forall fe e, node_canonical e = true ->
+  interp_rules (f_pow fe) (p_body GenOpt.const_range_pass) e = rw_of (const_range_v e).
+Proof. exact (fun fe e => BrOpt.const_range_rules_bridge (f_pow fe) e). Qed.
+Print Assumptions C02_const_range_is_source_rules.
+
+(* the repaired inputs: the descending extreme range is folded to [] by rules and model alike, the
+   full span MinInt..MaxInt (2^64 elements, wrapped size 0) is left to the run-time memory budget *)
+Example C02_const_range_repaired :
+  rw_of (const_range_v w_const_range_wrap) = RwOk (EConst ann0 (VArr (TNum KInt) [])) acc0 /\
+  rw_of (const_range_v w_const_range_full) = RwOk w_const_range_full acc0.
+Proof. exact (conj (proj2 BrOpt.const_range_repaired_witness) (proj2 BrOpt.const_range_full_span_untouched)). Qed.
+
+(* the operators the parser stores are canonical *)
+Theorem C02_parser_operators_canonical :
+  (forall s, canon_unop (X.Parse.Parser.unop_of_string s) = true) /\
+  (forall s, canon_binop (X.Parse.Parser.binop_of_string s) = true).
+Proof. exact BrOpt.canonical_of_parser. Qed.
+Print Assumptions C02_parser_operators_canonical.
